@@ -41,11 +41,13 @@ func (p *proxyTracker) RegisterPull(hash common.Hash128) {
 	p.real.RegisterPull(hash)
 	atomic.AddInt64(&p.calls, 1)
 }
-func (p *proxyTracker) AddPendingPush(id peer.ID, hash common.Hash128) { p.real.AddPendingPush(id, hash) }
-func (p *proxyTracker) Requests() chan pushpull.PendingPulls            { return p.fwd }
-func (p *proxyTracker) Run()                                            {}
-func (p *proxyTracker) SetHolder(holder pushpull.Holder)                {}
-func (p *proxyTracker) RemovePull(hash common.Hash128)                  { p.real.RemovePull(hash) }
+func (p *proxyTracker) AddPendingPush(id peer.ID, hash common.Hash128) {
+	p.real.AddPendingPush(id, hash)
+}
+func (p *proxyTracker) Requests() chan pushpull.PendingPulls { return p.fwd }
+func (p *proxyTracker) Run()                                 {}
+func (p *proxyTracker) SetHolder(holder pushpull.Holder)     {}
+func (p *proxyTracker) RemovePull(hash common.Hash128)       { p.real.RemovePull(hash) }
 
 // wrapHolder delegates everything to the real DefaultHolder except PushTracker() (proxy) and, when capOverride>0,
 // MaxParallelPulls() (TxPool and KeysPool return 1, DefaultHolder returns 3).
